@@ -297,8 +297,8 @@ pub fn check_main(tier: Tier) -> i32 {
     let mut pending: Vec<(usize, u64, u64)> = (0..w).map(|i| (i, i as u64, per)).collect();
     let mut outs: Vec<(usize, pool::WorkerOut)> = Vec::new();
     let mut hung_episodes: Vec<u64> = Vec::new();
-    for _round in 0..4 {
-        if pending.is_empty() {
+    for _round in 0..10 {
+        if pending.is_empty() || hung_episodes.len() > 64 {
             break;
         }
         let argvs: Vec<Vec<String>> = pending
@@ -639,6 +639,17 @@ pub fn check_main(tier: Tier) -> i32 {
         new_violations,
         wall
     );
+    if new_violations == 0 && !hung_episodes.is_empty() && ws.episodes * 2 < episodes {
+        // most of the planned episodes could not run (they hang: the tree under test blocks in
+        // the kernel while a simulated caller holds the baton). That is not a verdict either way.
+        eprintln!(
+            "harness error: only {} of {} planned episodes ran ({} hung and were skipped); no verdict",
+            ws.episodes,
+            episodes,
+            hung_episodes.len()
+        );
+        return cleanup(2);
+    }
     cleanup(if new_violations > 0 { 1 } else { 0 })
 }
 
